@@ -302,5 +302,9 @@ FIXED = [
     ("helper-with-list-of-parties-then-str-then-int", 'from nada_dsl import *\n\ndef label(ps: list[Party], prefix: str, k: int) -> str:\n    return prefix + str(k)\n\ndef nada_main():\n    p = Party(name="P")\n    s = SecretInteger(Input(name="s", party=p))\n    nm = label([p], "out", 2)\n    return [Output(s, nm, p)]\n'),
     ("recursive-helper", 'from nada_dsl import *\n\ndef power(base: PublicInteger, e: int) -> PublicInteger:\n    return base * power(base, e - 1)\n\ndef nada_main():\n    p = Party(name="P")\n    b = PublicInteger(Input(name="b", party=p))\n    r = power(b, 3)\n    return [Output(r, "o", p)]\n'),
     ("recursive-helper-reached-through-another", 'from nada_dsl import *\n\ndef down(x: SecretInteger, n: int) -> SecretInteger:\n    return down(x + x, n - 1)\n\ndef start(x: SecretInteger) -> SecretInteger:\n    return down(x, 2)\n\ndef nada_main():\n    p = Party(name="P")\n    s = SecretInteger(Input(name="s", party=p))\n    r = start(s)\n    return [Output(r, "o", p)]\n'),
+    # fourteenth seeding round: a bare annotation is not a binding; an augmented assignment changes the value's class
+    ("bare-annotation-then-use", 'from nada_dsl import *\n\ndef nada_main():\n    p = Party(name="P")\n    a = SecretInteger(Input(name="a", party=p))\n    total: SecretInteger\n    r = total + a\n    return [Output(r, "o", p)]\n'),
+    ("augmented-assignment-changes-the-class", 'from nada_dsl import *\n\ndef nada_main():\n    p = Party(name="P")\n    a = SecretInteger(Input(name="a", party=p))\n    total = Integer(0)\n    total += a\n    double = total + total\n    return [Output(double, "o", p)]\n'),
+    ("augmented-assignment-in-a-loop", 'from nada_dsl import *\n\ndef nada_main():\n    p = Party(name="P")\n    a = SecretInteger(Input(name="a", party=p))\n    u = PublicInteger(Input(name="u", party=p))\n    acc = u\n    for i in range(2):\n        acc *= a\n    last = acc - u\n    return [Output(last, "o", p)]\n'),
     ("typed-constructor-of-int", 'from nada_dsl import *\n\ndef nada_main():\n    p = Party(name="P")\n    s = SecretInteger(Input(name="s", party=p))\n    n = 3\n    a = PublicInteger(10)\n    b = SecretInteger(n + 1)\n    return [Output(s, "o", p)]\n'),
 ]
